@@ -237,6 +237,56 @@ def infoBlock (cfg : Cfg) (rq : Request) (typ : Nat) (trID trSeq trIf : Nat) : L
   else if typ = 131 then [trID, trSeq, cfg.localIA, trIf]
   else []
 
+/-- sizes and placement of the reply in the packet buffer -/
+structure Sizes where
+  total : Nat
+  quote : Bytes
+  front : Bool
+  off : Nat
+
+/-- the `if isError { ... } else { ... }` part of `prepareSCMP`: how much is quoted and where the
+message is serialised. `dstT`/`srcT` are the reply's address types, `ni`/`nh` its path's counts. -/
+def placement (cfg : Cfg) (headroom : Nat) (raw : Bytes) (dstT srcT ni nh typ : Nat)
+    (needsAuth isError : Bool) : Step Sizes :=
+  let hl := hdrLen dstT srcT ni nh typ needsAuth
+  let ahl := actualHdrLen dstT srcT ni nh typ needsAuth
+  if isError then
+    if maxSCMPPacketLen < hl then .panic "RawPacket[:quoteLen<0]"
+    else if hl + cfg.underlayHeadroom > headroom then
+      -- pack at the end of the buffer
+      if ahl + quoteLen raw.length hl > bufSize - headroom then .panic "prepend-before-slice-start"
+      else .ok ⟨ahl + quoteLen raw.length hl, raw.take (quoteLen raw.length hl), false,
+                bufSize - (ahl + quoteLen raw.length hl)⟩
+    else if quoteLen raw.length hl + headroom > bufSize then .panic "buffer[0:quoteLen+headroom]"
+    else if ahl > headroom then .panic "prepend-before-buffer-start"
+    else .ok ⟨ahl + quoteLen raw.length hl, raw.take (quoteLen raw.length hl), true, headroom - ahl⟩
+  else if ahl > bufSize - headroom then .panic "prepend-before-slice-start"
+  else .ok ⟨ahl, [], false, bufSize - ahl⟩
+
+/-- the authenticator and `scionL.SerializeTo` part of `prepareSCMP` -/
+def finish (cfg : Cfg) (o : Offender) (rq : Request) (rp : RevPath) (typ code : Nat)
+    (isError needsAuth : Bool) (trIf : Nat) (sz : Sizes) : Outcome :=
+  if needsAuth && !addrParsable o.srcType then .drop "dstaddr"
+  else if cmnHdrLen + addrHdrLen o.srcType cfg.hostType + pathLen rp.b.numINF rp.b.numHops > maxHdrLen then
+    .drop "hdrlen"
+  else if (cmnHdrLen + addrHdrLen o.srcType cfg.hostType + pathLen rp.b.numINF rp.b.numHops) % lineLen ≠ 0 then
+    .drop "hdralign"
+  else .emit {
+    total := sz.total,
+    hdrLenField := (cmnHdrLen + addrHdrLen o.srcType cfg.hostType + pathLen rp.b.numINF rp.b.numHops) / lineLen,
+    payloadLen := sz.total - (cmnHdrLen + addrHdrLen o.srcType cfg.hostType + pathLen rp.b.numINF rp.b.numHops),
+    nextHdr := bif needsAuth then l4E2E else l4SCMP, pathType := 1,
+    flowID := o.flowID, tc := o.tc, dstIA := o.srcIA, srcIA := cfg.localIA,
+    dstType := o.srcType, srcType := cfg.hostType, rawDst := o.rawSrc, rawSrc := cfg.rawHost,
+    numINF := rp.b.numINF, numHops := rp.b.numHops, pm := rp.b.pm,
+    infos := rp.infos, hops := rp.hops, scmpType := typ, scmpCode := code,
+    info := infoBlock cfg rq typ o.trID o.trSeq trIf, auth := needsAuth,
+    isError := isError, quote := sz.quote, front := sz.front, off := sz.off }
+
+/-- `needsAuth` of `prepareSCMP` -/
+def needsAuth (cfg : Cfg) (o : Offender) (typ : Nat) (isError : Bool) : Bool :=
+  cfg.auth && (isError || (typ == 131 && o.reqAuthValid))
+
 def prepareSCMP (cfg : Cfg) (scope : Scope) (headroom : Nat) (o : Offender) (rq : Request)
     (typ code : Nat) (isError : Bool) (trIf : Nat) : Outcome :=
   match reversePath o with
@@ -247,41 +297,11 @@ def prepareSCMP (cfg : Cfg) (scope : Scope) (headroom : Nat) (o : Offender) (rq 
     | .drop w => .drop w
     | .panic w => .panic w
     | .ok rp =>
-      let dstT := o.srcType
-      let srcT := cfg.hostType
-      let needsAuth := cfg.auth && (isError || (typ == 131 && o.reqAuthValid))
-      let scnLen := cmnHdrLen + addrHdrLen dstT srcT + pathLen rp.b.numINF rp.b.numHops
-      let mk (total : Nat) (quote : Bytes) (front : Bool) (off : Nat) : Outcome :=
-        if needsAuth && !addrParsable dstT then .drop "dstaddr"
-        else if scnLen > maxHdrLen then .drop "hdrlen"
-        else if scnLen % lineLen ≠ 0 then .drop "hdralign"
-        else .emit {
-          total := total, hdrLenField := scnLen / lineLen, payloadLen := total - scnLen,
-          nextHdr := if needsAuth then l4E2E else l4SCMP, pathType := 1,
-          flowID := o.flowID, tc := o.tc, dstIA := o.srcIA, srcIA := cfg.localIA,
-          dstType := dstT, srcType := srcT, rawDst := o.rawSrc, rawSrc := cfg.rawHost,
-          numINF := rp.b.numINF, numHops := rp.b.numHops, pm := rp.b.pm,
-          infos := rp.infos, hops := rp.hops, scmpType := typ, scmpCode := code,
-          info := infoBlock cfg rq typ o.trID o.trSeq trIf, auth := needsAuth,
-          isError := isError, quote := quote, front := front, off := off }
-      if isError then
-        let hl := hdrLen dstT srcT rp.b.numINF rp.b.numHops typ needsAuth
-        let ahl := actualHdrLen dstT srcT rp.b.numINF rp.b.numHops typ needsAuth
-        if maxSCMPPacketLen < hl then .panic "RawPacket[:quoteLen<0]"
-        else
-          let q := quoteLen o.raw.length hl
-          if hl + cfg.underlayHeadroom > headroom then
-            -- pack at the end of the buffer
-            if ahl + q > bufSize - headroom then .panic "prepend-before-slice-start"
-            else mk (ahl + q) (o.raw.take q) false (bufSize - (ahl + q))
-          else
-            if q + headroom > bufSize then .panic "buffer[0:quoteLen+headroom]"
-            else if ahl > headroom then .panic "prepend-before-buffer-start"
-            else mk (ahl + q) (o.raw.take q) true (headroom - ahl)
-      else
-        let ahl := actualHdrLen dstT srcT rp.b.numINF rp.b.numHops typ needsAuth
-        if ahl > bufSize - headroom then .panic "prepend-before-slice-start"
-        else mk ahl [] false (bufSize - ahl)
+      match placement cfg headroom o.raw o.srcType cfg.hostType rp.b.numINF rp.b.numHops typ
+              (needsAuth cfg o typ isError) isError with
+      | .drop w => .drop w
+      | .panic w => .panic w
+      | .ok sz => finish cfg o rq rp typ code isError (needsAuth cfg o typ isError) trIf sz
 
 /-- `packSCMP` -/
 def packSCMP (cfg : Cfg) (scope : Scope) (headroom : Nat) (o : Offender) (rq : Request)
